@@ -192,7 +192,7 @@ PY
     # rapid fail files and logs next to it
     find "$work" -name '*.fail' -exec cp {} "$rdir/" \; 2>/dev/null
     for ((i=0; i<shards; i++)); do
-      [ "$(cat "$work/rc-$i")" != 0 ] && { tail -c 20000 "$work/log-$i.txt" > "$rdir/$tier-seed$SEED-$stamp.log"; break; }
+      [ "$(cat "$work/rc-$i")" != 0 ] && { grep -v 'rapid\] draw' "$work/log-$i.txt" | tail -c 60000 > "$rdir/$tier-seed$SEED-$stamp.log"; break; }
     done
     grep -h -v 'rapid\] draw' "$work"/log-*.txt | grep -B25 -A3 -- '--- FAIL\|^panic:\|^fatal error:' | cut -c1-1200 | head -70
     echo "VIOLATION property=$id replay=$replay"
